@@ -4,10 +4,11 @@ package iavl
 
 var _ = vReg("C01_History_Writes", C01_History_Writes)
 var _ = vReg("C01_History_Prune", C01_History_Prune)
+var _ = vReg("C01_ShapeStep", C01_ShapeStep)
 
 func C01_History_Writes() {
-	cfg := &vHistCfg{name: "C01_History_Writes", nKeys: 3, lenVars: 1, valVars: 2, maxOps: 4,
-		ops:    []string{"set", "remove", "setnil", "commit", "rollback", "reopen"},
+	cfg := &vHistCfg{name: "C01_History_Writes", nKeys: 3, lenVars: 1, valVars: 1, maxOps: 4,
+		ops:    []string{"set", "remove", "setnil", "setempty", "commit", "rollback", "reopen"},
 		caches: []int{0, 10000}, fast: []bool{true, false}, thresh: []int{0}, auditOld: true}
 	if vTier() == "thorough" {
 		cfg.maxOps = 5
@@ -15,17 +16,53 @@ func C01_History_Writes() {
 		cfg.valVars = 3
 		cfg.caches = []int{0, 1, 10000}
 		cfg.thresh = []int{0, 101}
+		cfg.reopenCfg = true
+		cfg.nilKeys = 3
 	}
 	vStartHist(cfg).run()
 }
 
+// C01_History_Prune: build up to V versions (each with 0..W writes), then DeleteVersionsTo(n)
+// for every n, optionally reopen, optionally a second deletion; audit every retained version.
 func C01_History_Prune() {
-	cfg := &vHistCfg{name: "C01_History_Prune", nKeys: 2, lenVars: 1, valVars: 1, maxOps: 5,
-		ops:    []string{"set", "remove", "commit", "prune", "reopen"},
-		caches: []int{0, 10000}, fast: []bool{true, false}, thresh: []int{0}, auditOld: true}
+	cfg := &vHistCfg{name: "C01_History_Prune", nKeys: 2, lenVars: 1, valVars: 1,
+		caches: []int{0, 10000}, fast: []bool{true, false}, thresh: []int{0, 101}, auditOld: true}
+	maxV, maxW := 3, 1
 	if vTier() == "thorough" {
-		cfg.maxOps = 6
+		maxV, maxW = 4, 2
 		cfg.nKeys = 3
 	}
-	vStartHist(cfg).run()
+	h := vStartHist(cfg)
+	h.vBuildVersions(maxV, maxW)
+	h.doPrune()
+	if vChoice("reopen", 2) == 1 {
+		h.doReopen()
+	}
+	if vChoice("again", 2) == 1 {
+		h.doPrune()
+	}
+	h.audit()
+}
+
+// C01_ShapeStep: one Set/Remove from every AVL+ state of height <= H (T2), then audit.
+func C01_ShapeStep() {
+	cfg := &vHistCfg{name: "C01_ShapeStep", lenVars: 1, valVars: 2, caches: []int{0, 10000}, fast: []bool{false, true}, thresh: []int{0}, auditOld: true}
+	maxH := 2
+	if vTier() == "thorough" {
+		maxH = 3
+		cfg.lenVars = 4
+	}
+	h := vShapeState(cfg, maxH, 1, []int{0, 1, 2})
+	if h.p.n > 0 {
+		switch vChoice("op", 2) {
+		case 0:
+			h.doSet(vChoice("key", h.p.n))
+		case 1:
+			h.doRemove(vChoice("key", h.p.n))
+		}
+	}
+	if vChoice("commit", 2) == 1 {
+		h.doCommit()
+	}
+	h.audit()
 }
